@@ -184,6 +184,8 @@ type Oblig struct {
 	Trivial bool
 	Res     *SolverResult
 	Cover   bool
+	Env     *SpecEnv  // environment in which replay expressions are evaluated
+	Spec    *FuncSpec // contract the obligation belongs to
 }
 
 func (o *Oblig) Name() string { return o.Func + ":" + o.Clause }
